@@ -1505,6 +1505,20 @@ FUNCS = [
               "  -- world: what `fingerprint_path(dst)` gives (none = any error: absent, a directory, unreadable)",
          calls={}, paths={},
          verbatim=[("super::meta::fingerprint_path(dst).ok().map(|f| f.blake3)", "return fingerprint_path.map blake3")]),
+    # ---- transfer.rs: the directories a run creates before it delivers
+    dict(group="scan", file="src/bin/copia/transfer.rs", name="collect_dirs", sig=None, option=True,
+         lean="def collectDirsGen (fuel : Nat) (files : List (List String)) : Option (List (List String)) := Id.run do\n"
+              "  -- world: a relative path is its list of components; `parent()` drops the last one (none for the empty path), `as_os_str().is_empty()` = no\n"
+              "  -- component left; the BTreeSet as a duplicate-free list (`setIns`); none = the fuel ran out",
+         calls={}, paths={"std::collections::BTreeSet::new": "([] : List (List String))"},
+         methods={"as_path": lambda r, a: r, "as_os_str": lambda r, a: r, "is_empty": lambda r, a: f"{r}.isEmpty", "to_path_buf": lambda r, a: r,
+                  "into_iter": lambda r, a: r, "collect": lambda r, a: r},
+         mutators={("dirs", "insert"): lambda a: f"dirs := Copia.ScanSupport.setIns dirs {a[0]}"},
+         block_heads=[dict(rust="while let Some(parent) = cur.parent() {", indent=4, loop=True,
+                           before="for _ in List.replicate fuel () do\n"
+                                  "  match Copia.ScanSupport.parentOf cur with\n"
+                                  "  | none =>\n    @FIN@ := true\n    break\n"
+                                  "  | some parent =>")]),
     # ---- transfer.rs: the walker itself
     dict(group="scan", file="src/bin/copia/transfer.rs", name="discover_local_files", sig=None, option=True,
          lean="def discoverFilesGen {P R : Type} (read_dir : P → Option (List (Option (Copia.ScanSupport.Ent P)))) (is_file : P → Bool)\n"
